@@ -349,9 +349,9 @@ class TorchOps(Ops):
 
     def size_tv(self, tv: TV, i: int) -> TV:
         tag = tv.axes[i]
-        sym = {"R": "m", "C": "n"}.get(tag)
+        sym = {"R": "m", "C": "n", "R2": "m2"}.get(tag)
         poly = Poly.sym(sym) if sym else (Poly.const(1) if tag == "1" else None)
-        return TV(kind="pyint", dtype="Py", poly=poly, size_of=tag if tag in ("R", "C") else None, deg=F0,
+        return TV(kind="pyint", dtype="Py", poly=poly, size_of=tag if tag in ("R", "C", "R2") else None, deg=F0,
                   z=tag != "C", origin=frozenset(o if o.endswith("#meta") else o + "#meta" for o in tv.origin))
 
     def obj_attr(self, obj, attr, node, env):
